@@ -44,6 +44,16 @@ CLAIMED = {
             'C01.K1); that comparing zips have a length agreement (M2); that trust levels are literals set in constructors '
             'only (M3); that the default eval is the conclusion of the expansion (M5).',
             'equality of conclusions of eval and expansion for all arguments is not decided'),
+    'C17': ('bookkeeping of the congruence closure that answers and explanations rest on',
+            'pairing / must-pass-through rules over the statement CFG of merge and _propagate, key agreement between writer and reader of the '
+            'proof table, self-argument rule for the explanation chain',
+            'Decides that every union of two classes is recorded in the proof forest under the pending equation that caused it, with the edge '
+            'from the first constant to the second (G1); that an application equation is made pending or stays registered in lookup and in the '
+            'use lists of both arguments, on every path (G2); that equality is answered from representatives and new constants get an entry in '
+            'every table (G3); that the wrapper stores a proof under the pair it merged and extends an explanation chain by exactly the next '
+            'step, reversed through symmetric() (G4). These are necessary conditions of the behaviour; the behaviour is not decided.',
+            'that equalities are reported exactly when entailed, order independence and checker acceptance of explanations are properties of '
+            'run-time union-find states and are not decided'),
     'C18': ('veriT step evaluators: truncating comparisons, premise hypotheses, no unconditional acceptance',
             'family-wide AST/CFG rules over the 85 evaluators and their helpers in smt/veriT (code no baseline test can import)',
             'Decides for every evaluation-side function of smt/veriT that a pairwise comparison over zip() deciding acceptance has '
@@ -139,7 +149,6 @@ CLAIMED = {
 NOT_APPLICABLE = {
     'C15': 'SAT solver verdicts, resolution certificates and Tseitin equisatisfiability are invariants of the CDCL trail (runtime assignments, levels, learned clauses); no clause of the statement is visible in the shape of the code',
     'C16': 'correctness of Omega elimination, GCD tightening, simplex pivoting and witness reconstruction is numerical; the checker-acceptance clause is decided by the checker at run time',
-    'C17': 'order independence and exactness of congruence closure are properties of union-find / use-list states over merge histories; the one structural candidate (explanations only from kernel rules) is contradicted by design (unproved merges are gaps)',
     'C20': 'soundness of wp/VC generation is semantic; the print/re-parse clause cannot be decided from tables because imperative/parser2.py has an ambiguous expression grammar resolved by LALR conflict defaults and Op.__str__ is code, not a table',
 }
 
